@@ -641,24 +641,31 @@ def LContainer.beq (a b : LContainer) : Bool :=
 
 /-! ### the three sets and the definition object -/
 
+def typeSetStep (ens : Option String) (acc : List (String × LPType)) (el : XmlNode) : LoadM (List (String × LPType)) :=
+  match loadParameterType ens el with
+  | .error e => .error e
+  | .ok t => if acc.any (·.1 == t.name) then .error .value       -- duplicate parameter type name
+             else .ok (acc ++ [(t.name, t)])
+
+def paramSetStep (ens : Option String) (types : List (String × LPType)) (acc : List (String × LParam)) (el : XmlNode) :
+    LoadM (List (String × LParam)) :=
+  match loadParameter ens types el with
+  | .error e => .error e
+  | .ok p => if acc.any (·.1 == p.name) then .error .value       -- duplicate parameter name
+             else .ok (acc ++ [(p.name, p)])
+
 /-- `_parse_parameter_type_set` -/
-def loadParameterTypeSet (ens : Option String) (root : XmlNode) : LoadM (List (String × LPType)) := do
-  let set ← match findFirst ens [step "TelemetryMetaData", step "ParameterTypeSet"] root with
-    | some e => pure e | none => throw Err.other
-  set.elems.foldlM (fun acc el => do
-    let t ← loadParameterType ens el
-    if acc.any (·.1 == t.name) then throw Err.value               -- duplicate parameter type name
-    pure (acc ++ [(t.name, t)])) []
+def loadParameterTypeSet (ens : Option String) (root : XmlNode) : LoadM (List (String × LPType)) :=
+  match findFirst ens [step "TelemetryMetaData", step "ParameterTypeSet"] root with
+  | none => .error .other
+  | some set => set.elems.foldlM (typeSetStep ens) []
 
 /-- `_parse_parameter_set` -/
 def loadParameterSet (ens : Option String) (root : XmlNode) (types : List (String × LPType)) :
-    LoadM (List (String × LParam)) := do
-  let set ← match findFirst ens [step "TelemetryMetaData", step "ParameterSet"] root with
-    | some e => pure e | none => throw Err.other
-  set.elems.foldlM (fun acc el => do
-    let p ← loadParameter ens types el
-    if acc.any (·.1 == p.name) then throw Err.value               -- duplicate parameter name
-    pure (acc ++ [(p.name, p)])) []
+    LoadM (List (String × LParam)) :=
+  match findFirst ens [step "TelemetryMetaData", step "ParameterSet"] root with
+  | none => .error .other
+  | some set => set.elems.foldlM (paramSetStep ens types) []
 
 /-- Back-populate `inheritors`: for each container with a base, append its name to the base's list. -/
 def populateInheritors (lookup : CLookup) : LoadM CLookup :=
@@ -671,16 +678,25 @@ def populateInheritors (lookup : CLookup) : LoadM CLookup :=
         | none => throw Err.other
     | none => pure lk) lookup
 
-/-- `_parse_container_set` -/
-def loadContainerSet (ens : Option String) (root : XmlNode) (params : List (String × LParam)) : LoadM CLookup := do
-  let set ← match findFirst ens [step "TelemetryMetaData", step "ContainerSet"] root with
-    | some e => pure e | none => throw Err.other
-  let lookup ← set.elems.foldlM (fun (lk : CLookup) el => do
-    let (c, lk2) ← loadContainer ens root params FUEL lk el
+/-- One `SequenceContainer` child of the `ContainerSet`: parse it (it may already be in the lookup as somebody's base
+    or nested container: an equal one is kept, a different one is a `ValueError`). -/
+def containerSetStep (ens : Option String) (root : XmlNode) (params : List (String × LParam)) (lk : CLookup)
+    (el : XmlNode) : LoadM CLookup :=
+  match loadContainer ens root params FUEL lk el with
+  | .error e => .error e
+  | .ok (c, lk2) =>
     match lk2.get? c.name with
-    | none => pure (lk2.set c.name c)
-    | some old => if old.beq c then pure lk2 else throw Err.value) []
-  populateInheritors lookup
+    | none => .ok (lk2.set c.name c)
+    | some old => if old.beq c then .ok lk2 else .error .value
+
+/-- `_parse_container_set` -/
+def loadContainerSet (ens : Option String) (root : XmlNode) (params : List (String × LParam)) : LoadM CLookup :=
+  match findFirst ens [step "TelemetryMetaData", step "ContainerSet"] root with
+  | none => .error .other
+  | some set =>
+    match set.elems.foldlM (containerSetStep ens root params) [] with
+    | .error e => .error e
+    | .ok lookup => populateInheritors lookup
 
 structure LDef where
   ptypes : List (String × LPType)
@@ -715,19 +731,30 @@ def updateCaches (allTypes : List (String × LPType)) (allParams : List (String 
           | none => throw Err.other
         | none => throw Err.other) (ts, ps, cs)
 
+/-- Everything `from_xtce` reads from the document itself, given the namespace its path steps must match:
+    (header date, space-system name, parameter types, parameters, containers). -/
+def loadDoc (ens : Option String) (root : XmlNode) :
+    LoadM (Option String × Option String × List (String × LPType) × List (String × LParam) × CLookup) :=
+  match loadParameterTypeSet ens root with
+  | .error e => .error e
+  | .ok types =>
+    match loadParameterSet ens root types with
+    | .error e => .error e
+    | .ok params =>
+      match loadContainerSet ens root params with
+      | .error e => .error e
+      | .ok lookup =>
+        .ok ((findFirst ens [step "Header"] root).bind (·.attr? "date"), root.attr? "name", types, params, lookup)
+
 /-- `XtcePacketDefinition.from_xtce(document, xtce_ns_prefix=…, root_container_name=…)` -/
 def loadXtce (ctx : NsCtx) (rootName : String) (root : XmlNode) : LoadM LDef := do
   let ens ← ctx.expected
-  let header := findFirst ens [step "Header"] root
-  let date := header.bind (·.attr? "date")
-  let types ← loadParameterTypeSet ens root
-  let params ← loadParameterSet ens root types
-  let lookup ← loadContainerSet ens root params
+  let (date, ssn, types, params, lookup) ← loadDoc ens root
   -- `cls(container_set=list(lookup.values()), ns=…, xtce_ns_prefix=…)`
   if ctx.nsPrefix.isSome && !(ctx.nsmap.any (·.1 == ctx.nsPrefix)) then throw .value
   let (ts, ps, cs) ← lookup.foldlM (fun acc kv => updateCaches types params lookup FUEL acc kv.2) ([], [], [])
   pure { ptypes := ts, params := ps, containers := cs, root := rootName, date := date,
-         spaceSystemName := root.attr? "name", nsPrefix := ctx.nsPrefix, nsmap := ctx.nsmap }
+         spaceSystemName := ssn, nsPrefix := ctx.nsPrefix, nsmap := ctx.nsmap }
 
 /-! ### from the loaded object graph to the decoding model -/
 
